@@ -15,7 +15,7 @@ Inductive case :=
            (expl : option (option string)) (ctl : Z) (prefix tail : string) (conftok : option string)
            (* observed on the first Initial packet of a whole dial *)
            (obsDcid obsScid obsPN obsPNLen : Z) (obsToken : option string) (obsHdrLen : Z)
-| ValidateCase (specDcid specScid ipn : Z) (lens : list Z) (single udpMin : Z) (plans : list (Z * Z)) (maxPacket : Z)
+| ValidateCase (specDcid specScid ipn : Z) (lens : list Z) (single udpMin : Z) (plans : list (Z * Z)) (maxPacket tokLen : Z)
                (* observed: the whole dial failed with "invalid QUICSpec" before sending anything *)
                (obsRejected : bool)
 | VNCase (ipn : Z) (lens : list Z) (single : Z)
@@ -98,8 +98,8 @@ Definition model_obs (c : case) : obs :=
     FObs (flight_obs dcid scid ipn firstPN lens single expl ctl prefix tail conftok bk plans udpMin maxSize helloLen plens)
   | DialCase specDcid specScid ipn lens single expl ctl prefix tail conftok obsDcid _ _ _ _ _ =>
     DObs (dial_obs specDcid specScid ipn lens single expl ctl prefix tail conftok obsDcid)
-  | ValidateCase specDcid specScid ipn lens single udpMin plans maxPacket _ =>
-    VObs (negb (validateSpec specScid specDcid ipn lens single udpMin plans maxPacket))
+  | ValidateCase specDcid specScid ipn lens single udpMin plans maxPacket tokLen _ =>
+    VObs (negb (validateSpecT specScid specDcid ipn lens single udpMin plans maxPacket tokLen))
   | VNCase ipn lens single ops =>
     (* the packet number space continues across the re-creation; the length list stays indexed
        from the spec's InitPacketNumber *)
@@ -127,7 +127,7 @@ Definition check_case (c : case) : bool :=
     && zeqb_list (match do_token o with Some b => b | None => [] end) (match ohx otok with Some b => b | None => [] end)
     && (do_hdr o =? oh)
     && ((specDcid >? 0) || ((upMinConnectionIDLenInitial <=? od) && (od <=? upMaxConnIDLen)))
-  | ValidateCase _ _ _ _ _ _ _ _ orej, VObs r => Bool.eqb r orej
+  | ValidateCase _ _ _ _ _ _ _ _ _ orej, VObs r => Bool.eqb r orej
   | VNCase _ _ _ ops, NObs m => list_eqb pair_eqb m ops
   | WireCase _ _ _ _ _ _ _ _ ow, WObs c b => (c =? 0) && zeqb_list b (hx ow)
   | PayloadCase _ _ _ op, PObs b => zeqb_list b (hx op)
